@@ -166,6 +166,17 @@ func init() {
 	cp["negzero-float-leaf"] = func(c *Case, f *Failure) bool {
 		return treeOf(f).any(func(x *CNode) bool { return x.Kind == "prim" && x.Prim == "f:8000000000000000" })
 	}
+	// K-json-float-exp: a float64 leaf that is integer-valued and at least 1e6 in magnitude (it prints in exponent form,
+	// and the JSON decoder turns it into an int, which prints in decimal form)
+	cp["int-valued-float-exp"] = func(c *Case, f *Failure) bool {
+		return treeOf(f).any(func(x *CNode) bool {
+			if x.Kind != "prim" {
+				return false
+			}
+			v, ok := floatOf(x.Prim)
+			return ok && v == math.Trunc(v) && math.Abs(v) >= 1e6 && math.Abs(v) < 9.3e18
+		})
+	}
 	// ranges (C03 / C04): judged on the parsed tree, so that they apply to every generator
 	cp["range-str-excl"] = func(c *Case, f *Failure) bool {
 		return hasTag(c, "range-mixed") || boundIs(treeOf(f), func(mn, mx *CNode, incl bool) bool { return !incl && (isStrLeaf(mn) || isStrLeaf(mx)) })
